@@ -24,6 +24,9 @@ const purityStream = true
 
 type c06Case struct {
 	RSEmpty bool     `json:"rs_empty"`
+	Files   bool     `json:"files,omitempty"`
+	InMode  string   `json:"input_mode,omitempty"`
+	Args    []string `json:"args,omitempty"`
 	Ops     []op     `json:"ops"`
 	Words   []string `json:"protocol_words,omitempty"`
 	Program string   `json:"awk_program,omitempty"`
@@ -31,8 +34,8 @@ type c06Case struct {
 }
 
 func mkCase(h *history) c06Case {
-	prog, stdin := renderAWK(h)
-	return c06Case{h.RSEmpty, h.Ops, protoWords(h), prog, vh.Hx(stdin)}
+	rd := render(h)
+	return c06Case{h.RSEmpty, h.Files, h.InMode, rd.Args, h.Ops, protoWords(h), rd.Prog, vh.Hx(rd.Stdin)}
 }
 
 func runC06(c *vh.Ctx) {
@@ -43,6 +46,7 @@ func runC06(c *vh.Ctx) {
 		"full dumps; rendered as an AWK program whose observations are printed length-prefixed; non-trivial = at least one " +
 		"observation after at least one mutation of the record")
 
+	defer cleanupFiles()
 	var hs []*history
 	if c.ReplayFile != "" {
 		hs = loadReplay(c.ReplayFile)
@@ -72,7 +76,7 @@ func runC06(c *vh.Ctx) {
 	for i, h := range hs {
 		o := outs[i]
 		key := strings.Join(protoWords(h), " ")
-		c.Eval(fmt.Sprintf("%v|%s", h.RSEmpty, key), nontrivial(h))
+		c.Eval(fmt.Sprintf("%v|%v|%s|%s", h.RSEmpty, h.Files, h.InMode, key), nontrivial(h))
 		distribution(c, h)
 		if i%9973 == 1 {
 			prog, _ := renderAWK(h)
@@ -103,16 +107,23 @@ func runC06(c *vh.Ctx) {
 
 	// correspondence with the Lean model
 	if c.HasLean() {
-		reqs := make([]string, len(hs))
+		var reqs []string
+		var idx []int
 		for i, h := range hs {
+			if h.InMode != "" {
+				c.Hit("lean:not-modelled-csv-input-mode")
+				continue // CSV/TSV input mode is not in the Lean model: oracle only
+			}
 			rs := "0"
 			if h.RSEmpty {
 				rs = "1"
 			}
-			reqs[i] = "rec " + rs + " " + strings.Join(protoWords(h), " ")
+			reqs = append(reqs, "rec "+rs+" "+strings.Join(protoWords(h), " "))
+			idx = append(idx, i)
 		}
 		ans := c.LeanBatch(reqs)
-		for i, a := range ans {
+		for k, a := range ans {
+			i := idx[k]
 			o := outs[i]
 			if o.res.Panic != "" || o.bad != "" {
 				continue
@@ -148,7 +159,7 @@ func loadReplay(path string) []*history {
 	var hs []*history
 	add := func(cs c06Case) {
 		if len(cs.Ops) > 0 {
-			hs = append(hs, &history{RSEmpty: cs.RSEmpty, Ops: cs.Ops})
+			hs = append(hs, &history{RSEmpty: cs.RSEmpty, Files: cs.Files, InMode: cs.InMode, Ops: cs.Ops})
 		}
 	}
 	add(doc.Failure.Case)
